@@ -97,6 +97,13 @@ def _params(obj):
 RETAINED = collections.deque(maxlen=12)
 
 
+def forget(arr):
+    """the caller is about to edit a result it was handed: its own array, no longer watched"""
+    keep = [(a_, cp, label) for (a_, cp, label) in RETAINED if a_ is not arr]
+    RETAINED.clear()
+    RETAINED.extend(keep)
+
+
 def _retain_and_check(fn, a):
     c = core.ctx()
     keep = []
